@@ -488,3 +488,18 @@ PROPS['C10'] = dict(
     assumptions=['TLC; ListSeq/RingSpec as transcription of the documented before/after pictures; ListMC/RingMC pointer-level models as transcription of list.go/ring.go',
                  'a call that does not return within 2 s is recorded as a hang (st=3), which the specification never allows',
                  'ring.At(+-len) is nil as the code and TestRing/Peek pin it; Join(r, r) is a no-op returning nil'])
+
+# --------------------------------------------------------------------------
+# C11 / C12 slice.EditScript, LCS, LIS, LNDS (records; every record its own history)
+PROPS['C11'] = dict(
+    mc=[dict(module='EditScriptMC', cfg=('EditScriptMC_q.cfg', 'EditScriptMC_t.cfg'), emit=True, workers=8)],
+    trace=dict(module='EditScriptTrace', cfg='EditScriptTrace.cfg', stack='256m'),
+    assumptions=['TLC; EditScript.tla: declarative ScriptOK/LCSLen and the transcription of slice/edit.go',
+                 'exhaustive over the TLC-enumerated space of pairs (all pairs up to the length bound over 3 symbols, longer over 2); seeded random beyond',
+                 '"the very spans" is checked as content equality at the running offsets (DESIGN.md section 6)'])
+PROPS['C12'] = dict(
+    mc=[dict(module='SubseqMC', cfg=('SubseqMC_q.cfg', 'SubseqMC_t.cfg'), emit=True, workers=8),
+        dict(module='EditScriptMC', cfg=('EditScriptMC_lcs_q.cfg', 'EditScriptMC_q.cfg'), emit=True, workers=8)],
+    trace=dict(module='SubseqTrace', cfg='SubseqTrace.cfg', stack='256m'),
+    assumptions=['TLC; Subseq.tla/EditScript.tla: declarative optimum (quadratic DP) and transcription of the patience algorithm',
+                 'exhaustive over the TLC-enumerated input space; seeded random beyond (long near-monotone inputs with duplicates)'])
